@@ -619,6 +619,14 @@ func (e *Eval) compile(node ast.Node) error {
 		//
 		e.changeOperand(jumpEnd, len(e.instructions))
 
+		// Finally add a "Nop" instruction, one that will not
+		// be optimized away.
+		//
+		// Because our "jmp END" will jump to an instruction which
+		// doesn't exist otherwise, and the optimizer must not fold
+		// the end of the false-branch into whatever follows.
+		e.emit(code.OpPlaceholder)
+
 	case *ast.SwitchExpression:
 
 		//
